@@ -606,6 +606,13 @@ pub fn sheet(r: &mut R) -> String {
         match r.b(10) {
             0 => s.push_str(r.pick(&["@media print { p{color:red;} }", "@import 'x';", "@charset \"u\";", "@x [a(b)] {c}", "@font-face{font-family:x;}", "@media (a:b) and (c) { }", "@x # ;", "@import url(https://f.example/css2?family=R:wght@400;700&display=swap);", "@import url(data:text/css;base64,cHt9);", "@x-junk [a;b] foo;", "@y (a;b) [c;(d;e)] ;", "@z f(a;b){q{r:s;}}"])),
             1 => s.push_str(r.pick(&["%%% {x:y;}", "p{{}}", "} p{color:red;}", "p{color:red;", "<!-- p{color:red;} -->", "p{color:é;}", ".é{color:red;}"])),
+            2 => {
+                // generated content on every kind of element, table parts included (insert_child at the start and at the end)
+                let el = *r.pick(&[&"p", &"div", &"li", &"ul", &"ol", &"table", &"tr", &"td", &"th", &"tbody", &"blockquote", &"h1", &"h2", &"a", &"span", &"em", &"pre", &"dl", &"dt", &"dd", &"code", &"strong"]);
+                let pe = *r.pick(&[&"::before", &"::after", &"::after", &":before", &":after"]);
+                let c = *r.pick(&[&"\"[x]\"", &"'»'", &"\"a b\"", &"\"\"", &"'字'"]);
+                s.push_str(&format!("{el}{pe}{{content:{c}}}"));
+            }
             _ => s.push_str(&ruleset(r)),
         }
         s.push_str(&ws(r));
